@@ -564,7 +564,8 @@ class Grammar:
         if t == "v":
             return (ren or {}).get(e[1], e[1])
         if t == "l":
-            return repr(e[1])
+            # ("l", value) or ("l", value, klong_text) for a literal whose Klong text is not repr(value) (1e400)
+            return e[2] if len(e) > 2 else repr(e[1])
         if t == "b":
             return f"({self.text(e[2], ren)}){e[1]}({self.text(e[3], ren)})"
         if t == "n":
@@ -877,7 +878,7 @@ class Oracle:
             body = G.text(e, ren)
             if not vs:
                 return [], f"{{{body}}}()"
-            return [], f"{{{body}}}({';'.join(vs)})"
+            return [], f"{{{body}}}({';'.join(vs[:3])})"
         if pos == "operand":
             return [], f",({t})"
         if pos == "named":
@@ -885,7 +886,7 @@ class Oracle:
             ren = {v: p for v, p in zip(vs, "xyz")}
             body = G.text(e, ren)
             name = "g" + hashlib.sha1(body.encode()).hexdigest()[:10]
-            return [f"{name}::{{{body}}}"], f"{name}({';'.join(vs)})"
+            return [f"{name}::{{{body}}}"], f"{name}({';'.join(vs[:3])})"
         raise ValueError(pos)
 
     def domain_ok(self, e, pair):
@@ -965,7 +966,10 @@ class Oracle:
             fresh.define(d)
         fa, fb = fresh.both(text)
         stale = fresh.same(fa, fb)
-        key, m = self.key(e, fresh if not stale else pair, stale)
+        try:
+            key, m = self.key(e, fresh if not stale else pair, stale)
+        except Exception as ex:      # classification must never turn a failing input into a crash
+            key, m = f"{self.backend}:{'history:' if stale else ''}unclassified({type(ex).__name__})", e
         earlier = None
         if stale and self.prev_binds is not None:
             # shortest history: evaluate once under the previous bindings, rebind, evaluate again
@@ -1142,7 +1146,12 @@ def check_codegen(ctx, G, drv):
     total = 0
     bad = None
     for b, prov in provs.items():
-        real = [prov._ir_to_source(t) for t in trees]
+        real = []
+        for t in trees:
+            try:
+                real.append(prov._ir_to_source(t))
+            except Exception as ex:      # a changed generator may refuse an IR tree: a mismatch, not a crash
+                real.append(f"<raised {type(ex).__name__}>")
         if drv is None:
             continue
         model = drv.ask_many([f"src {b} {ir_wire(t)}" for t in trees])
@@ -1165,6 +1174,18 @@ def check_codegen(ctx, G, drv):
 # =========================================================================== model correspondence
 
 def model_case(ctx, G, drv, pair, e, binds):
+    """model_case_ with every exception out of the real code turned into a mismatch (never a crash)"""
+    try:
+        return model_case_(ctx, G, drv, pair, e, binds)
+    except common.Infra:
+        raise
+    except Exception as ex:
+        ctx.mismatch("real compiler raised during the correspondence",
+                     dict(kind="model", expr=G.text(e), bindings=[[n, klit(from_py(v)), how] for n, v, how in binds]),
+                     "a value or a clean refusal", f"{type(ex).__name__}: {ex}")
+
+
+def model_case_(ctx, G, drv, pair, e, binds):
     """real _ast_to_ir / _collect_params / compiled callable / interpreter vs kd_c05 (numpy, top level)"""
     from klongpy.compiler import _ast_to_ir, compile_expr
     from klongpy.core import KGSym
@@ -1435,10 +1456,19 @@ def run_backend(ctx, G, drv, backend, quick):
              ("r", "|", ("b", "*",) + ab), ("r", "&", ("b", "+",) + ab), ("s", "+", ("b", "*",) + ab),
              ("s", "*", ("b", "+",) + ab), ("b", "*",) + ab, ("b", "+", ("r", "+", ("b", "*",) + ab), ("l", 0)),
              ("r", "+", ("b", "*", ("b", "+", ("v", "a"), ("l", 0)), ("v", "b"))),
-             ("r", "+", ("b", "*", ("v", "a"), ("n", G.neg, ("v", "b"))))]
+             ("r", "+", ("b", "*", ("v", "a"), ("n", G.neg, ("v", "b")))),
+             # a verb whose result may be a host (numpy) array or a number rather than a backend array, under the
+             # max/min reductions and scans that generated code does with array methods
+             ("r", "|", ("b", "^",) + ab), ("r", "&", ("b", "^",) + ab), ("s", "|", ("b", "^",) + ab),
+             ("s", "&", ("b", "^",) + ab), ("r", "|", ("b", "^", ("l", 2), ("v", "b"))),
+             ("r", "&", ("b", "%",) + ab), ("s", "|", ("b", "%", ("l", 3), ("v", "b"))),
+             ("r", "|", ("b", "=",) + ab), ("s", "&", ("b", "<",) + ab), ("r", "+", ("b", "^",) + ab)]
     fused = [e for e in fused if ops_of(e) <= set(G.bin) | set(G.rs) | {G.neg}]
-    for w, v in (mixed_pairs if not quick else rng.sample(mixed_pairs, 4)):
-        for first, second in (((w, v)), ((v, w)), ((w, v))):
+    mixed_pairs += [(2, [1, 2, 3]), ([1, 2, 3], 2), (3, [0.5, 1.5]), (2.5, 2), ([4, 9], [0.5, 0.5])]
+    if quick:
+        mixed_pairs = mixed_pairs[:2] + mixed_pairs[-5:]
+    for w, v in mixed_pairs:
+        for first, second in ((((w, v)), ((v, w))) if quick else (((w, v)), ((v, w)), ((w, v)))):
             binds = [("a", first, "text"), ("b", second, "text")]
             rebind_all(binds)
             step += 1
@@ -1446,6 +1476,67 @@ def run_backend(ctx, G, drv, backend, quick):
                 for pos in POSITIONS + ["named"]:
                     orc.check(e, pos, binds, step)
         ctx.bump(f"{backend}:mixed-kind-pairs")
+
+    # 7. wide expressions: 11-14 distinct variables with distinct values in non-commutative chains (left and
+    #    right nested Minus / Divide, mixes with Times and Plus), so that any permutation of the operands of the
+    #    generated function (its parameters are passed positionally) changes the value
+    names = list("abcdefghijklmn")
+    n_wide = 8 if quick else 80
+    for i in range(n_wide):
+        nv = rng.randrange(11, 15)
+        vs = names[:nv]
+        rng.shuffle(vs) if i % 2 else None
+        leaves_ = [("v", v) for v in vs]
+        if i % 4 == 0:                               # a-b-c-…  (Klong groups to the right; written explicitly)
+            e = leaves_[-1]
+            for lf in reversed(leaves_[:-1]):
+                e = ("b", "-", lf, e)
+        elif i % 4 == 1:                             # ((a-b)-c)-…
+            e = leaves_[0]
+            for lf in leaves_[1:]:
+                e = ("b", "-", e, lf)
+        else:                                        # random binary tree over the leaves, non-commutative mix
+            pool = list(leaves_)
+            while len(pool) > 1:
+                j = rng.randrange(len(pool) - 1)
+                op = rng.choice(["-", "-", "*", "+", "%"] if i % 4 == 2 else ["-", "+", "*"])
+                if op not in G.bin:
+                    op = "-"
+                pool[j:j + 2] = [("b", op, pool[j], pool[j + 1])]
+            e = pool[0]
+        kind = i % 3
+        vals = ([2 ** k for k in range(nv)] if kind == 0 else
+                [k + 1.5 for k in range(nv)] if kind == 1 else
+                [[2 ** k, 3 ** k] for k in range(nv)])
+        binds = [(n, v, "text") for n, v in zip(names[:nv], vals)]
+        rebind_all(binds)
+        step += 1
+        for pos in POSITIONS + ["named"]:
+            orc.check(e, pos, binds, step)
+        if backend == "numpy" and drv:
+            model_case(ctx, G, drv, orc.pair, e, binds)
+        ctx.bump(f"{backend}:wide-expressions")
+    rebind_all([("a", 1, "text"), ("b", 2, "text")])
+
+    # 8. real literals that overflow a double (1e400 reads as inf, whose repr is not a Python literal, so the
+    #    generated function raises NameError and the call site must fall back), in every position
+    big = [("l", float("inf"), "1e400"), ("l", float("inf"), "1e999")]
+    over = []
+    for lit in big:
+        over += [("b", "*", ("v", "a"), lit), ("b", "<", ("v", "a"), lit), ("b", "+", ("v", "a"), lit),
+                 ("b", "-", lit, ("v", "a")), ("b", "%", ("v", "a"), lit), ("n", G.neg, ("b", "*", ("v", "b"), lit)),
+                 ("r", "+", ("b", "*", ("v", "a"), lit)), ("b", ">", lit, ("b", "+", ("v", "a"), ("v", "b")))]
+    over = [e for e in over if ops_of(e) <= set(G.bin) | set(G.rs) | {G.neg}]
+    for va in ([2, [1, 2, 3], 0.5] if quick else [2, -3, 0, 0.5, [1, 2, 3], [0.5, 1.5], [[1, 2], [3, 4]], []]):
+        binds = [("a", va, "text"), ("b", 3, "text")]
+        rebind_all(binds)
+        step += 1
+        for e in over:
+            for pos in POSITIONS + ["named"]:
+                orc.check(e, pos, binds, step)
+            if backend == "numpy" and drv:
+                model_case(ctx, G, drv, orc.pair, e, binds)
+        ctx.bump(f"{backend}:overflowing-literals")
 
     # 4. literal-kind twins: two expressions of the same shape whose literals are equal in value but not in
     #    kind (2 / 2.0, 0 / 0.0, -(1) / -(1.0)), evaluated by ONE interpreter in both orders (a fresh pair per
